@@ -262,7 +262,14 @@ class History:
         bad = 0
         for n, st in enumerate(h["log"]):
             if st["a"] == "set":
-                setattr(S, st["phase"], self.lib_array(st["lib"], st["phase"]))
+                # the client changes the stiffness of a phase either by binding a new matrix to the attribute or by
+                # editing the matrix the object already holds IN PLACE (alternating)
+                new = self.lib_array(st["lib"], st["phase"])
+                cur = getattr(S, st["phase"])
+                if (n + len(h["log"])) % 2 == 0 and isinstance(cur, np.ndarray) and cur.shape == new.shape and cur.dtype.kind == "f" and cur.flags.writeable:
+                    cur[...] = new
+                else:
+                    setattr(S, st["phase"], new)
                 continue
             c = self.cases[st["k"] - 1]
             inst = st["inst"]
